@@ -156,7 +156,7 @@ sys.exit(0 if ok else 1)
 '''
 
 
-def collect(rep, parts, module, what="pairing"):
+def collect(rep, parts, module, make_violation=None):
     """fold CrossHair results into the report: verdict per partition, side-log records,
     exhaustiveness cross-check, vacuity twins, counterexamples -> Violation objects"""
     from .core import Violation
@@ -176,8 +176,11 @@ def collect(rep, parts, module, what="pairing"):
                 rep.harness_error(f"{pt.name}: symbolic and native execution disagree on {r.get('p')}")
                 continue
             key = r["keys"][0]
-            rep.violation(Violation(key, (r.get("problems") or ["?"])[0],
-                                    REPLAY_TMPL.format(verif=VERIF, module=module, rec=r), witness=r.get("p")))
+            if make_violation is not None:
+                rep.violation(make_violation(r))
+            else:
+                rep.violation(Violation(key, (r.get("problems") or ["?"])[0],
+                                        REPLAY_TMPL.format(verif=VERIF, module=module, rec=r), witness=r.get("p")))
         if pt.status == "confirmed":
             rep.add(discharged=1)
             if pt.expected is not None and len(distinct) != pt.expected:
